@@ -248,11 +248,13 @@ func C18(c *core.Ctx) {
 				// re-read the store
 				unord := false
 				var after []*gen.DNode
+				gen.CompoundInMap = 0
 				if tgtKind == "refstore" {
 					after = tree
 				} else {
 					after = gen.FromMap(dc.kids, tgtMap, &unord)
 				}
+				compoundMap := gen.CompoundInMap > 0
 				locAfter := locateBody(dc.kids, after, loc)
 				status := errClass(opErr)
 				canon := "<entry point vanished>"
@@ -292,7 +294,7 @@ func C18(c *core.Ctx) {
 				lines = append(lines, "data ops ; "+strings.Join(gen.SchemaTokens(loc.kids), " ")+" ; "+
 					strings.Join(gen.BodyTokens(loc.kids, initLocBody), " ")+" ; "+strings.Join(optoks, " ; "))
 				input := map[string]interface{}{"yang": dc.yang, "target_impl": tgtKind, "location": loc.path,
-					"initial": gen.Canon(loc.kids, initLocBody, false), "history": append([]string{}, hist...), "error": fmt.Sprint(opErr), "after": canon, "lookups": lookups}
+					"initial": gen.Canon(loc.kids, initLocBody, false), "history": append([]string{}, hist...), "error": fmt.Sprint(opErr), "after": canon, "lookups": lookups, "compound_list_in_go_map": compoundMap}
 				pends = append(pends, pend{fmt.Sprintf("%s at %q step %d: %s", tgtKind, loc.path, k+1, hist[len(hist)-1]), status + " " + canon + " " + lookups, loc, unord, input, tgtKind, hist})
 				if op.kind != "U" && op.kind != "I" && op.kind != "P" {
 					c.Distinct(fmt.Sprint(si, ci, k))
@@ -340,7 +342,7 @@ func C18(c *core.Ctx) {
 			continue
 		}
 		if p.impl != want {
-			if p.target == "reflect-map" && compoundKeyRe.MatchString(fmt.Sprint(p.input["yang"])) && c.IsKnown("map-list-compound-key", p.desc) {
+			if p.target == "reflect-map" && p.input["compound_list_in_go_map"] == true && c.IsKnown("map-list-compound-key", p.desc) {
 				continue
 			}
 			c.Violation(core.Replay{Kind: "property-failure", Class: "ops-" + p.target + "-" + strings.Fields(p.history[len(p.history)-1])[0],
